@@ -189,7 +189,6 @@ def make_body(job):
       ch = B.Chan(N + 1, fresh_int('st_new', 1, 4)); c.chan[N + 1] = ch
       s._AddSink('ep%d' % (N + 1), lambda: ch)
       check('add.present', s._size == N + 1 and sorted(n.endpoint for n in s._heap[1:]) == sorted('ep%d' % i for i in range(1, N + 2)))
-      check('add.opened', ch.opened == 1)
       check('add.idle', [n for n in s._heap[1:] if n.endpoint == 'ep%d' % (N + 1)][0].load == Idle)
       B.check_inv(c)
       out2 = dict(c.out); out2[N + 1] = 0; c.st[N + 1] = ch._st
